@@ -714,11 +714,12 @@ def s3d_annotation(chk: Check, proj: Project, w) -> None:
     chk.floor("S3d", n, 2)
     f = em.func("component_error_message")
     strips = [x for x in stmts(f) if isinstance(x, ast.Assign) and any(isinstance(c, ast.Call) and isinstance(c.func, ast.Attribute) and c.func.attr in ("split", "partition", "splitlines") for c in ast.walk(x.value))]
-    pre = [x for x in stmts(f) if isinstance(x, ast.Assign) and isinstance(x.value, ast.JoinedStr) and x.value.values and isinstance(x.value.values[0], ast.Constant)]
+    pre = [x for x in ast.walk(f) if isinstance(x, ast.JoinedStr) and x.values and isinstance(x.values[0], ast.Constant) and isinstance(x.values[0].value, str) and len(x.values[0].value) >= 10
+           and not any(isinstance(a, ast.Raise) for a in ancestors(x))]
     if not strips or not pre:
         chk.undecided("S3d", "util.exception:component_error_message:strip-only-own-prefix", em.loc(f), "message strip / prefix construction not recognised")
         return
-    prefix_txt = str(pre[0].value.values[0].value)
+    prefix_txt = str(pre[0].values[0].value)
     for x in strips:
         atoms = cond_atoms(x)
         guard = None
